@@ -153,6 +153,17 @@ notes={
  'C16-Q':'+ the member addressed as a root member from inside a filter nested in an @-operand',
  'C19-R':'+ Configs kept in one slice: Parse(path, all[:1]...) / Retrieve(path, doc, all[:0]...) leave the other elements alone',
  'C20-G':'+ defined types over float64 / string / bool and json.RawMessage among the opaque values',
+ 'C01-S':'+ TestC01_SharedParsed: one parsed path shared by goroutines on different documents, against SPEC',
+ 'C02-S':'+ hexadecimal-float and other ParseFloat spellings of number literals (generated filters, mutation vocabulary)',
+ 'C03-S':'+ every function withdrawn from the Config (nil registered) between Parse and the call',
+ 'C10-S':'+ a decoy Config (same function names and mode, other functions) sends the same path through the same entry point first',
+ 'C11-S':'+ chained cases evaluated again on copies with shared containers / arrays that are windows of one another',
+ 'C13-S':'+ Set values: null, numbers, containers, empty non-nil containers alone and nested',
+ 'C15-S':'+ one member name of 65 400..66 100 characters in 1 path of 300 (paths beyond 64 KiB)',
+ 'C16-S':'+ the member asked for by a path that starts with the filter (no $) right after a Parse rejected inside a filter operand',
+ 'C17-S':'+ tails of 270..1500 characters behind 1 path in 25 (near must be long)',
+ 'C18-S':'+ member names that begin or end with a blank (the escaped blank as the last character of the path)',
+ 'C20-S':'+ zero-size non-nil values of different types (one address), paired on purpose',
 }
 rows=[]
 for d in sorted(glob.glob('/verif/seeded/C*-*')):
